@@ -1,8 +1,10 @@
 package main
 
 import (
+	"crypto/sha1"
 	"encoding/json"
 	"fmt"
+	"github.com/libsv/go-bk/crypto"
 	"os"
 	"runtime"
 	"sort"
@@ -10,6 +12,8 @@ import (
 	"sync"
 	"sync/atomic"
 	"time"
+	"verif/internal/gen"
+	"verif/internal/vectors"
 
 	"github.com/anishathalye/porcupine"
 	"github.com/libsv/go-bt/v2"
@@ -620,6 +624,38 @@ func c18Jobs(seed uint64) []c18Job {
 		tx.Outputs = []*bt.Output{{Satoshis: 1, LockingScript: bscript.NewFromBytes([]byte{0x51})}}
 		jobs = append(jobs, c18Job{raw: tx.Bytes(), idx: 0, prev: v.Lock, sats: v.Amount, flags: scriptflag.Flag(libFlagsOfVector(v.Flags))})
 	}
+	// every hash opcode on small and large operands (the expected digest is
+	// computed independently, so a wrong digest flips the verdict), and small
+	// arithmetic / byte-string programs whose result is checked by the script
+	pure := func(unlock, lock []byte) {
+		tx := &bt.Tx{Version: 1}
+		in := &bt.Input{SequenceNumber: 0xffffffff, UnlockingScript: bscript.NewFromBytes(unlock)}
+		_ = in.PreviousTxIDAdd(append([]byte{}, fixedTxID...))
+		tx.Inputs = []*bt.Input{in}
+		tx.Outputs = []*bt.Output{{Satoshis: 1, LockingScript: bscript.NewFromBytes([]byte{0x51})}}
+		jobs = append(jobs, c18Job{raw: tx.Bytes(), idx: 0, prev: lock, sats: 1, flags: scriptflag.UTXOAfterGenesis})
+	}
+	hr := prng.New(seed, "C18-hash-jobs", 0)
+	for _, n := range []int{20, 3000, 48000} {
+		data := hr.Bytes(n)
+		s1 := sha1.Sum(data)
+		for _, h := range []struct {
+			op  byte
+			sum []byte
+		}{{0xa6, crypto.Ripemd160(data)}, {0xa7, s1[:]}, {0xa8, crypto.Sha256(data)}, {0xa9, crypto.Hash160(data)}, {0xaa, crypto.Sha256d(data)}} {
+			pure(gen.Push(data), append(append([]byte{h.op}, gen.Push(h.sum)...), 0x87))
+		}
+	}
+	sh := func(x string) []byte { b, _ := vectors.ParseShort(x); return b }
+	for _, prog := range [][2]string{
+		{"1NEGATE 1NEGATE", "ADD -2 EQUAL"}, {"1NEGATE", "ABS 1 EQUAL"}, {"1NEGATE 5", "ADD 4 EQUAL"}, {"-5 4", "NUM2BIN 0x04 0x05000080 EQUAL"},
+		{"0x04 0x05000080", "BIN2NUM -5 EQUAL"}, {"0x02 0x0102 0x01 0x03", "CAT 0x03 0x010203 EQUAL"}, {"0x03 0x010203 1", "SPLIT 0x02 0x0203 EQUALVERIFY 0x01 0x01 EQUAL"},
+		{"0x02 0x0100 8", "LSHIFT 0x02 0x0000 EQUAL"}, {"0x02 0x0001 8", "LSHIFT 0x02 0x0100 EQUAL"}, {"0x02 0x0f0f", "INVERT 0x02 0xf0f0 EQUAL"},
+		{"1 0", "IF 0 ELSE 1 ELSE 0 ENDIF"}, {"2 3", "MUL 6 EQUAL"}, {"7 2", "DIV 3 EQUAL"}, {"-7 2", "MOD -1 EQUAL"}, {"1", "TOALTSTACK 2 FROMALTSTACK ADD 3 EQUAL"},
+		{"1NEGATE", "0x01 0x81 EQUAL"}, {"16", "1ADD 17 EQUAL"}, {"0", "NOT"}, {"5", "SIZE 1 EQUALVERIFY 5 EQUAL"}, {"0x02 0x8000", "BIN2NUM 0 EQUAL"},
+	} {
+		pure(sh(prog[0]), sh(prog[1]))
+	}
 	return jobs
 }
 
@@ -680,7 +716,7 @@ func init() {
 		ID:   "C18",
 		Race: true,
 		Rule: "Built with the race detector. (1) FeeQuote/FeeQuotes histories: 4-32 goroutines, GOMAXPROCS in {2,4,16}, few keys (2 fee types x 4 miners + 2 free-standing quotes), mixed Fee / AddQuote / Expiry / UpdateExpiry / Expired / json.Marshal / json.Unmarshal / FeeQuotes.Fee / UpdateMinerFees / Quote / AddMiner(WithDefault) with randomised yields between operations; every written fee or expiry carries a unique id spread redundantly over its fields; call/return stamped from one atomic counter at the client boundary. Judged: zero race-detector reports (log files parsed by the parent), no fatal error, every value read was stored by some write with consistent fields, every per-key history linearizable against a register (decided exactly by the unique-value zone criterion of Gibbons & Korach, and cross-checked with porcupine under a 20 s timeout whose expiry is only recorded). " +
-			"(2) one shared Engine executing a fixed job set (P2PKH, P2PK with separators, 2-of-3 multisig, two-check scripts, pure-script node vectors; accepted and rejected) from many goroutines, each on its own deserialised transaction: every concurrent verdict/error text equals the sequential one. " +
+			"(2) one shared Engine executing a fixed job set (P2PKH, P2PK with separators, 2-of-3 multisig, two-check scripts, pure-script node vectors; every hash opcode on 20 / 3000 / 48000-byte operands against independently computed digests; 20 arithmetic and byte-string programs; accepted and rejected) from many goroutines, each on its own deserialised transaction: every concurrent verdict/error text equals the sequential one. " +
 			"distinct_nontrivial = histories in which at least two operations of different type overlapped on one key (resp. engine runs with both accepted and rejected jobs) and all oracles held.",
 		Assum:  []string{"only the schedules the Go scheduler produced under these settings were observed", "existing miners are never replaced during a history (AddMiner only introduces new names), so that Quote()+operation is a single-register operation"},
 		Shards: func(tier string) int { return 4 },
